@@ -116,23 +116,12 @@ def check_model(ctx, m, e, k):
             if q != b["merged"] or b["merged"] != b["union"]:
                 ctx.violation(case, "children_bp_merged", {"id": fid, "observed": q, "expected": b["merged"], "union": b["union"]})
         d.conn.close()
-        d = gffutils.FeatureDB(path)      # a fresh handle: children_bp(merge=True) advanced the live counters of the old one
-        res = d.merge_all(exclude_components=m["exclude"])
-        d.conn.close()                    # "stores": what a new connection finds after the handle is closed, without any commit of the harness
-        got = G.canon_snap(dbio.proj_file(path))
-        want = G.canon_snap(e["mergeall"]["db"])
-        # the source of a merged feature is the joined set of its members' sources (all 's' here); bins are not compared
-        orig = set(json.dumps(f["attrs"][0][1][0]) for f in m["feats"])
-        for snap in (want, got):
-            for f in snap["feats"]:
-                if json.dumps(f["id"]) not in orig:       # a stored merged feature: only what the statement names is compared
-                    f["score"] = f["source"] = f["frame"] = []
-        bad = G.diff_clause(want, got)
-        if len(res) != e["mergeall"]["n"]:
-            bad = bad or "merge_all_result_count"
+        # merge_all on this model alone (a fresh handle: children_bp(merge=True) advanced the live counters of the old one); judged like the scaled
+        # run: what is stored after the handle is closed, merged features by (seqid, type, strand, start, end) - their ids only have to be fresh and
+        # distinct, their score / source / frame / attributes are not fixed by the statement - and relations through those signatures
+        bad, detail = scaled_merge_all([m], [e], m["exclude"], path)
         if bad:
-            ctx.violation(case, "merge_all:" + bad, {"exclude_components": m["exclude"], "expected_keys": [dec(f["id"]) for f in e["mergeall"]["db"]["feats"]],
-                                                      "observed_keys": [dec(f["id"]) for f in got["feats"]]})
+            ctx.violation(case, "merge_all:" + bad.split(":", 1)[1], dict(detail or {}, exclude_components=m["exclude"]))
     except Exception as ex:  # noqa
         ctx.violation(case, "raised:" + type(ex).__name__, {"message": str(ex)[:200]})
     finally:
@@ -170,8 +159,12 @@ def scaled_merge_all(models, exps, exclude, path):
             db = gffutils.create_db([G.real_feature(f) for f in feats], path, force=True)
             db.conn.close()
             db = gffutils.FeatureDB(path)
-            db.merge_all(exclude_components=exclude)
+            res = db.merge_all(exclude_components=exclude)
             db.conn.close()
+        if len(res) != sum(e["mergeall"]["n"] for e in exps):
+            return "scaled_merge_all:result_count", {"returned": len(res), "expected": sum(e["mergeall"]["n"] for e in exps)}
+        if len(set(f.id for f in res)) != len(res):
+            return "scaled_merge_all:merged_ids_not_distinct", None
         conn = __import__("sqlite3").connect(path)
         try:
             got = {}
